@@ -90,8 +90,12 @@ def _worker(task):
                              EXPECT_I, 'is_valid is True precisely when validate returns'))
         return o, viol
 
+    thin = G.Thinner(sc, tier)
+
     def check(gen, x, kw=None, today=None, spec=None, timeout=0):
         kw = kw or {}
+        if thin.skip(gen):
+            return None, []
         o, viol = evaluate(x, spec, kw, timeout)
         klass = 'ok' if o[0] == 'ok' else '%s:%s' % (o[0], o[1])
         key = (x if spec is None else ('<ns>',) + tuple(spec), G.kw_key(kw), today)
